@@ -439,6 +439,17 @@ fn cli_sweep(ctx: &mut Ctx) {
             }
         }
     }
+    // ordering files with more names than a machine word has bits, of which the formula uses a few
+    for total in [63usize, 64, 65, 70, 128, 130, 300] {
+        let names: Vec<String> = (1..=total).map(|i| format!("sensor_{i}")).collect();
+        let f = format!("sensor_3 & (sensor_{} | -sensor_{total})", total - 2);
+        for opts in [vec!["-t"], vec!["-v", "-r"], vec!["-t", "-m"]] {
+            idx += 1;
+            if ctx.mine(idx) {
+                check_cli(ctx, &Inv::new(&f, &opts).with_ordering(&names.join("\n")));
+            }
+        }
+    }
     // every benchmark repetition count 0..=80 and around the larger powers of two
     for f in ["(a & -b) | c", "true"] {
         for n in (0..=80usize).chain([99, 100, 101, 127, 128, 129, 255, 256, 257, 1000]) {
